@@ -65,7 +65,7 @@ def run(ctx):
         'signatures: the edit classes of ToySig.tla on ECDSA (secp256k1, P-256, P-384) and EdDSA (BN254, BLS12-381, BLS12-377, BW6-761 companions; the low-order-commitment class on BN254); non-canonical ECDSA components are not expressible as gadget witnesses',
         'dishonest hints: the decomposition / result hints of ScalarMul (native twisted Edwards, emulated short Weierstrass with complete arithmetic) replaced by the strategies of FakeGLV.tla, through the real Groth16 prover',
         'native two-chain gadget sw_bls12377: G1 through the algebra.Curve interface, G2 point methods (Add, AddUnified, Double, Neg), over BW6-761',
-        'pairing checks: only the zero-residue-witness strategy against sw_bls12377.PairingCheck and sw_bls12381.AssertFinalExponentiationIsOne; pairing values themselves and the EVM precompile wrappers are not covered',
+        'pairing checks: only the zero-residue-witness strategy against sw_bls12377.PairingCheck and sw_bls12381.AssertFinalExponentiationIsOne; pairing values themselves are not covered; of the EVM precompile wrappers only ECRECOVER (hinted public key tampered) is exercised',
     ]
     r = ctx.tlc('CurveOps', 'CurveOps.cfg', workers=1, timeout=900)
     cases = r.beh
@@ -176,6 +176,11 @@ def hint_adversaries(ctx, quick):
         add(g, 'honest', '1', 'right', 'satisfiable')
         add(g, 'honest', '1', 'wrong', 'unsatisfiable')
         add(g, 'zeroWitness', '1', 'wrong', 'unsatisfiable')
+    # the ECRECOVER precompile gadget takes the recovered key from a hint and re-derives it
+    add('ecrecover', 'honest', '1', 'right', 'satisfiable')
+    add('ecrecover', 'honest', '1', 'wrong', 'unsatisfiable')
+    add('ecrecover', 'tamperY', '1', 'wrong', 'unsatisfiable')
+    add('ecrecover', 'tamperX', '1', 'wrong', 'unsatisfiable')
     res = ctx.harness(['curvehints', '--par', '12'], cases, timeout=3600)
     if len(res) != len(cases):
         raise vlib.Infra('short hint-adversary replay')
